@@ -9,10 +9,8 @@ RULE = ("for every parameter-bearing command (0x01, 0x02, 0x06, 0x0A, 0x41, 0x0C
         "canonical and shuffled key order, plus the nested dictionaries stand-alone with every subset of their optional members; messages are "
         "built from the SPECIFICATION tables (keys, types, limits), never from the code. Non-trivial = distinct message that decodes to a request")
 ASSUMPTIONS = []
-TECHNIQUE = "Coq proof: regenerated request declarations proved equal to the specification parameter tables (all 32 feature sets); typed-decoder theorems; differential run on spec-generated messages"
-LEVEL_TEXT = ("Kernel-checked equality between every deserialisable declaration regenerated from /repo (keys, order, types, capacities, optionality, "
-              "aliases, helpers) and the hand-written specification tables, for all feature sets; decoder theorems on the model instantiated at the "
-              "specification tables; differential run of the extracted model against Request::deserialize on messages generated from the tables.")
+TECHNIQUE = "Coq proof: regenerated request declarations proved equal to the specification parameter tables (all 32 feature sets); entry-loop theorems (parameters in any order give exactly the record of the sent entries, for integer- and text-keyed maps); round-trip theorem (every well-typed parameter value decodes to itself); differential run on spec-generated messages"
+LEVEL_TEXT = ("Kernel-checked equality between every deserialisable declaration regenerated from /repo (keys, order, types, capacities, optionality, aliases, helpers) and the hand-written specification tables, for all feature sets; theorems: the command byte selects the parameter type (all 256 bytes), entries of a parameter map in ANY order decode to the record holding under each member exactly the value sent (c01_indexed_map_faithful, c01_text_map_faithful), and via the round-trip theorem every well-typed value is recovered exactly; differential run of the extracted model against Request::deserialize on messages generated from the tables.")
 feature_sets = default_feature_sets
 
 
